@@ -7,12 +7,20 @@
 # afterwards ({<in>, <in>.~qpdf-orig[#], <in>.~qpdf-temp#} x {original, new, absent, other}), the exit status and the
 # calls made are compared with the extracted model, and the extracted specification (c11_safe, c11_final_ok) is
 # evaluated on the directory the binary left.
-import json, os, shutil
+# Part stale-directory: the same runs started in directories that already hold files / directories under the backup and
+# temporary names (Sys/ReplaceDirModel.v c11d_run, theorems replace_any_dir_*); part job-shapes: --replace-input as part
+# of jobs (--pages, --overlay, --rotate, --encrypt, ...) on clean inputs, inputs that warn when opened and inputs that warn
+# while being written, with clean and damaged secondary files; both judged by the extracted c11d_safe / c11d_final_ok.
+import json, os, re, shutil, time
 import common, c10
 
 ASSUMPTIONS = c10.ASSUMPTIONS + [
     "rename(2) is atomic and unlink/rename do not fail halfway (power loss and non-atomic file systems are outside)",
     "a kill between two stdio calls leaves on disk what the kernel had accepted at the previous call (user-space buffers die with the process)",
+    "stale-directory / job-shapes: which warnings a job has is known from how its files were built (main input: wrong startxref = warns when opened, a too "
+    "small /Length = warns while written; secondary files: a-damaged.pdf with a wrong startxref) and is what the model is given as c11d_wmain / c11d_wother; "
+    "rename(2) onto a directory and fopen(\"wb+\") of a directory fail without changing anything (EISDIR); directory entries other than regular files and "
+    "directories are outside",
 ]
 
 
@@ -27,6 +35,336 @@ def classify(sc, files, name):
     return "X"
 
 
+
+# ------------------------------------------------------------------ any directory, any job (Sys/ReplaceDirModel.v)
+
+# the four documented names, numbered as ocaml/h_sys.ml numbers them for c11drun
+NAMES4 = {"<stdout>": 0, "outrep.pdf": 1, "outrep.pdf.~qpdf-orig": 2, "outrep.pdf.~qpdf-temp#": 3, "outrep.pdf.~qpdf-orig#": 4}
+KEPT, TEMP, SCRATCH = "outrep.pdf.~qpdf-orig", "outrep.pdf.~qpdf-temp#", "outrep.pdf.~qpdf-orig#"
+CLS_WORD = {"O": "orig", "N": "new", "A": "absent", "X": "other"}
+
+
+class Ref4:
+    pass
+
+
+def ref4(wd, tag, scen, inp, tail):
+    """fault-free run in a directory that holds only the input: the write calls of the temporary file, the new file"""
+    rd = os.path.join(wd, "%s-ref" % tag)
+    ref = c10.run_binary(rd, scen, inp, "none", tail_args=tail)
+    r = Ref4()
+    r.run = ref
+    r.ok = ref.rc in (0, 3) and "outrep.pdf" in ref.files
+    if not r.ok:
+        r.why = "fault-free run exits %d: %s" % (ref.rc, ref.stderr.decode("latin-1")[-300:])
+        return r
+    names = dict(NAMES4)
+    evs, nops, fails = c10.parse_log(ref.log, rd, names, assign=True)
+    r.evs, r.nops = evs, nops
+    r.op_kinds = [e[0] for e in evs]
+    r.lens = [int(m.group(1)) for m in (re.match(r"w3:(\d+):", e) for e in evs) if m]
+    r.pops = max(0, sum(1 for e in evs if e.startswith("f3")) - 1)
+    r.new = ref.files["outrep.pdf"]
+    r.orig = open(inp["path"], "rb").read()
+    r.extra_names = sorted(k for k in names if k not in NAMES4)
+    return r
+
+
+def classify4(orig, new, files, name):
+    if name not in files:
+        return "A"
+    b = files[name]
+    if b == orig:
+        return "O"
+    if b == new:
+        return "N"
+    return "X"
+
+
+def observe4(r4, res, rd, pre):
+    """(observation string in the model's format, c11dobs line, classes, failing calls)"""
+    files = dict(res.files)
+    dirs_now = {k for k, v in files.items() if v.startswith(c10.DIRMARK)}
+    dirs_before = {k for k, v in (pre or {}).items() if v is None or isinstance(v, list)}
+    res2 = c10.Run()
+    res2.__dict__.update(res.__dict__)
+    # a directory that is where and what it was is not a file of the model's directory; anything else about it is
+    res2.files = {k: v for k, v in files.items()
+                  if not (k in dirs_now and k in dirs_before and v == c10.DIRMARK + ",".join(sorted(pre[k] or [])).encode())}
+    for k in dirs_before - dirs_now:
+        res2.files.setdefault(k + "#directory-gone", b"")
+    o, evs, fails = c10.obs_string(res2, rd, NAMES4)
+    a, k, s, t = (classify4(r4.orig, r4.new, files, n) for n in ("outrep.pdf", KEPT, SCRATCH, TEMP))
+    def same(n):
+        if not pre or n not in pre:
+            return 0
+        v = pre[n]
+        if isinstance(v, bytes):
+            return 1 if files.get(n) == v else 0
+        return 1 if files.get(n) == c10.DIRMARK + ",".join(sorted(v or [])).encode() else 0
+    ex = "K" if res.rc == -9 else str(res.rc if res.rc >= 0 else 255)
+    diags = c10.diag_of_stderr(res.stderr)
+    warned = 1 if (b"WARNING: " in res.stderr or "W" in diags or res.rc == 3) else 0
+    unl = 1 if "U" in diags else 0
+    line = "c11dobs %s %d %d %s %s %s %s %d %d" % (ex, warned, unl, a, k, s, t, same(KEPT), same(SCRATCH))
+    return o, line, (a, k, s, t), fails, evs
+
+
+def pre_model(pre):
+    """the model's arguments for what the directory held: files by number, directories by number"""
+    fl = ["%d:%s" % (NAMES4[n], common.hexs(v)) for n, v in sorted((pre or {}).items()) if isinstance(v, bytes)]
+    dl = [str(NAMES4[n]) for n, v in sorted((pre or {}).items()) if not isinstance(v, bytes)]
+    return ";".join(fl) or "-", ",".join(dl) or "-"
+
+
+def pre_words(pre, orig):
+    out = {}
+    for n, v in sorted((pre or {}).items()):
+        sfx = n.replace("outrep.pdf", "<in>")
+        if v is None:
+            out[sfx] = "an empty directory"
+        elif isinstance(v, list):
+            out[sfx] = "a directory holding %s" % ", ".join(v)
+        else:
+            out[sfx] = "a file identical to the input" if v == orig else "an older document (%d bytes, md5 %s)" % (len(v), c10.md5(v))
+    return out
+
+
+def path_faults(r4, kinds, writes=0, rng=None, upto=None):
+    """faults at every operation that is not a plain write (and `writes` sampled writes)"""
+    ks = [i + 1 for i, k in enumerate(r4.op_kinds) if k != "w"]
+    if writes and rng is not None:
+        ws = [i + 1 for i, k in enumerate(r4.op_kinds) if k == "w"]
+        ks += rng.sample(ws, min(writes, len(ws)))
+    if upto is not None:
+        ks = [k for k in ks if k <= upto]
+    out = []
+    for m in kinds:
+        if m == "fail":
+            out += ["fail@%d" % k for k in ks if r4.op_kinds[k - 1] in "oru"]
+        else:
+            out += ["%s@%d" % (m, k) for k in ks]
+    return out
+
+
+def run_cases4(chk, runner, wd, cases, variant, B, part):
+    """cases: dicts with r4, scen, inp, tail, pre, faults (list), wmain, wother, wx0, tag, describe.
+    Runs the binary on every (case, fault), the extracted model c11d_run, the extracted specification; reports."""
+    jobs = [(ci, f) for ci, c in enumerate(cases) for f in c["faults"]]
+
+    def one(idx):
+        ci, f = jobs[idx]
+        c = cases[ci]
+        rd = os.path.join(wd, "%s-%d" % (part, idx))
+        res = c10.run_binary(rd, c["scen"], c["inp"], f, tail_args=c["tail"], pre=c["pre"])
+        o, line, cls, fails, evs = observe4(c["r4"], res, rd, c["pre"])
+        return (o, line, cls, fails, res.rc, res.stderr[-400:].decode("latin-1"), res.argv, {k: (len(v) if not v.startswith(c10.DIRMARK) else "directory") for k, v in res.files.items()}, evs)
+    impl = common.par_map(one, range(len(jobs)), workers=c10.WORKERS)
+    sout = common.run_lines(runner, [x[1] for x in impl])
+    mlines = []
+    for c in cases:
+        r4 = c["r4"]
+        pf, pd = pre_model(c["pre"])
+        mlines.append("c11drun %s %d %d %d %d %d %d %d %s %s %s %s %s %s" % (
+            variant, B, c10.EXIT_ROUNDS[0], r4.pops, 1 if c["wmain"] else 0, 1 if c["wother"] else 0, 1 if c["wx0"] else 0, 1 if "--no-warn" in c["tail"] else 0,
+            c10.lens_str(r4.lens), common.hexs(r4.new), common.hexs(r4.orig), pf, pd, ",".join(map(c10.model_fault, c["faults"]))))
+    mout = common.par_map(lambda l: common.run_lines(runner, [l])[0], mlines, workers=c10.WORKERS) if mlines else []
+    model = []
+    for c, mo in zip(cases, mout):
+        outs = mo.split(" ")
+        if len(outs) != len(c["faults"]):
+            raise common.InfraError("model runner failed on %s: %s" % (c["tag"], mo[:300]))
+        model += [c10.model_fields(o)[0] for o in outs]
+    nontriv, dist, diffs, nviol = set(), {}, [], 0
+    for idx, ((ci, f), x, sv, mo) in enumerate(zip(jobs, impl, sout, model)):
+        c = cases[ci]
+        a, k, s, t = x[2]
+        exs = "K" if x[4] == -9 else str(x[4])
+        key = "%s/exit%s/in=%s,kept=%s,scratch=%s,temp=%s" % (f.split("@")[0], exs, a, k, s, t)
+        dist[key] = dist.get(key, 0) + 1
+        nontriv.add((c["tag"], f))
+        if sv != "ok":
+            w = "main" if c["wmain"] else ("other" if c["wother"] else "none")
+            sig = "C11:%s:%s:exit%s:%s:in=%s,kept=%s,scratch=%s:w=%s" % (part, f.split("@")[0], exs, c10.surface(x[3], f),
+                                                                     CLS_WORD[a], CLS_WORD[k], CLS_WORD[s], w)
+            legend = "O the original of this run, N the complete new file, A absent, X anything else (a partial file, a stale file of an earlier run, a directory)"
+            chk.violation({"kind": "property-fails-on-implementation", "part": part, "why": sv,
+                           "case": dict(c["describe"], argv=x[6], fault=f,
+                                        fault_meaning="k-th file operation of the run fails (full/fail), or the process is SIGKILLed immediately before (killb) / "
+                                                      "after (killa) it; see harness/shim_fault.c",
+                                        initial_directory=dict({"<in>": "the input (%d bytes)" % len(c["r4"].orig)}, **pre_words(c["pre"], c["r4"].orig))),
+                           "exit": x[4], "stderr": x[5],
+                           "final_directory": {"<in>": a, "<in>.~qpdf-orig": k, "<in>.~qpdf-orig#": s, "<in>.~qpdf-temp#": t, "legend": legend},
+                           "file_sizes": x[7], "calls": " ".join(x[8])[-400:], "failing_calls": x[3][:6], "signature": sig,
+                           "replay": {"part": part, "scenario": c["scen"], "input": c["describe"]["input"], "fault": f, "tail": list(c["tail"]),
+                                      "pre": {n: ("<same-as-input>" if v == c["r4"].orig else (v.hex() if isinstance(v, bytes) else v)) for n, v in (c["pre"] or {}).items()}}},
+                          signature=sig)
+            sigs = chk.cov.setdefault("specification_violations_by_signature", {})
+            sigs[sig] = sigs.get(sig, 0) + 1
+            nviol += 1
+        if mo != x[0]:
+            diffs.append((ci, f, x, mo))
+    if diffs:
+        ci, f, x, mo = diffs[0]
+        c = cases[ci]
+        pf, pd = pre_model(c["pre"])
+        r4 = c["r4"]
+        vline = "c11dtrace %s %d %d %d %d %d %d %d %s %s %s %s %s %s" % (
+            variant, B, c10.EXIT_ROUNDS[0], r4.pops, 1 if c["wmain"] else 0, 1 if c["wother"] else 0, 1 if c["wx0"] else 0, 1 if "--no-warn" in c["tail"] else 0,
+            c10.lens_str(r4.lens), common.hexs(r4.new), common.hexs(r4.orig), pf, pd, c10.model_fault(f))
+        vout = common.run_lines(runner, [vline])[0]
+        chk.violation({"kind": "correspondence-broken", "correspondence": "corr:C11:%s" % part, "differing_cases": len(diffs),
+                       "check_vector_assumed": c10.vec_name(variant),
+                       "first_case": dict(c["describe"], argv=x[6], fault=f, initial_directory=pre_words(c["pre"], r4.orig),
+                                          main_input_warns=c["wmain"], other_file_warns=c["wother"]),
+                       "implementation": x[0], "model": mo, "implementation_calls": " ".join(x[8])[-600:],
+                       "model_calls": vout.split("|")[-1].replace("_", " ")[-600:],
+                       "note": "exit status / diagnostics / files of the directory / calls of the binary differ from Sys/ReplaceDirModel.v c11d_run"},
+                      no_input=True)
+    samples = []
+    for idx in (len(jobs) // 3, len(jobs) // 2, len(jobs) - 2):
+        if 0 <= idx < len(jobs):
+            ci, f = jobs[idx]
+            samples.append({"argv": impl[idx][6], "input": cases[ci]["describe"]["input"], "initial_directory": pre_words(cases[ci]["pre"], cases[ci]["r4"].orig),
+                            "fault": f, "exit": impl[idx][4], "directory(in,kept,scratch,temp)": "".join(impl[idx][2])})
+    chk.count(part, len(jobs), nontriv, samples)
+    chk.cov["parts"][part]["distribution"] = dist
+    chk.cov["parts"][part]["model_differences"] = len(diffs)
+    if diffs:
+        chk.cov["parts"][part]["model_difference_cases"] = [{"case": cases[ci]["tag"], "fault": f, "implementation": x[0], "model": mo} for ci, f, x, mo in diffs[:6]]
+    return nviol
+
+
+OLDER = None
+
+
+def older_doc():
+    """an older document: a valid PDF that is neither the input nor the new file of any run"""
+    global OLDER
+    if OLDER is None:
+        import pdfgen
+        OLDER = pdfgen.write_classic(pdfgen.page_doc(2, marker="OLDER"))[0]
+    return OLDER
+
+
+def stale_directory_cases(chk, wd, inputs, quick):
+    rng = chk.rng
+    cases = []
+    kinds = ("older", "same", "dir", "dirfull")
+    for iname in ("small", "warn"):
+        inp = inputs[iname]
+        r4 = ref4(wd, "stale-%s" % iname, "replace", inp, ())
+        if not r4.ok:
+            chk.violation({"kind": "correspondence-broken", "correspondence": "corr:C11:fault-free-run", "input": iname, "why": r4.why}, no_input=True)
+            continue
+        orig = r4.orig
+        val = {"older": older_doc(), "same": orig, "dir": None, "dirfull": ["keep.txt"]}
+        mine = KEPT if inp["warn"] else SCRATCH
+        confs = []
+        for n in (KEPT, SCRATCH, TEMP):
+            for kd in ("older", "same", "dir"):
+                confs.append({n: kd})
+        confs.append({KEPT: "older", SCRATCH: "older", TEMP: "older"})
+        confs.append({mine: "older", TEMP: "dirfull"})
+        confs.append({mine: "dirfull"})
+        allc = [dict(zip((KEPT, SCRATCH, TEMP), t)) for t in __import__("itertools").product((None,) + kinds, repeat=3)]
+        allc = [{n: kd for n, kd in c.items() if kd} for c in allc]
+        allc = [c for c in allc if c and c not in confs]
+        confs += rng.sample(allc, 14) if quick else allc
+        for conf in confs:
+            pre = {n: val[kd] for n, kd in conf.items()}
+            # a directory under the temporary name stops the run at its first operation, one under this run's backup name at the first rename
+            upto = None
+            if not isinstance(pre.get(TEMP, b""), bytes):
+                upto = 1
+            elif not isinstance(pre.get(mine, b""), bytes):
+                upto = r4.op_kinds.index("r") + 1
+            faults = ["none"] + path_faults(r4, ("full", "fail", "killb", "killa"), writes=2, rng=rng, upto=upto)
+            if quick and len(conf) == 1 and list(conf)[0] not in (mine, TEMP):
+                # the backup name this run does not use: a sample of the fault points
+                faults = ["none"] + rng.sample(faults[1:], 8)
+            cases.append({"r4": r4, "scen": "replace", "inp": inp, "tail": (), "pre": pre, "faults": faults,
+                          "wmain": inp["warn"], "wother": False, "wx0": False,
+                          "tag": "%s/%s" % (iname, ",".join("%s=%s" % (n[10:], kd) for n, kd in sorted(conf.items()))),
+                          "describe": {"input": iname, "job": "--replace-input"}})
+        if iname == "small":
+            # --deterministic-id: finish() calls from the Popper destructor precede the renames
+            rd4 = ref4(wd, "stale-did-%s" % iname, "replace-did", inp, ())
+            if rd4.ok:
+                for conf in ({mine: "older"}, {TEMP: "older", mine: "same"}):
+                    pre = {n: val[kd] for n, kd in conf.items()}
+                    cases.append({"r4": rd4, "scen": "replace-did", "inp": inp, "tail": (), "pre": pre,
+                                  "faults": ["none"] + path_faults(rd4, ("full", "fail", "killb", "killa")),
+                                  "wmain": inp["warn"], "wother": False, "wx0": False,
+                                  "tag": "%s/did/%s" % (iname, ",".join("%s=%s" % (n[10:], kd) for n, kd in sorted(conf.items()))),
+                                  "describe": {"input": iname, "job": "--replace-input --deterministic-id"}})
+    return cases
+
+
+def job_shapes(inputs):
+    """(name, arguments after the input name, a damaged secondary file is used)"""
+    p = inputs["small"]["path"]
+    dmg, clean = c10._sib(p, "a-damaged.pdf"), c10._sib(p, "z-clean.pdf")
+    att, dmgatt = c10._sib(p, "in-att.pdf"), c10._sib(p, "a-damaged-att.pdf")
+    return [
+        ("pages-self", ["--pages", ".", "1-z", "--"], False),
+        ("pages-self-reversed", ["--pages", ".", "z-1", "--"], False),
+        ("pages-by-name", ["--pages", "outrep.pdf", "1", "--"], False),
+        ("pages-other-only", ["--pages", clean, "1", "--"], False),
+        ("pages-self-and-other", ["--pages", ".", clean, "1", "--"], False),
+        ("pages-collate", ["--collate", "--pages", ".", clean, "--"], False),
+        ("pages-rotate", ["--pages", ".", "1-z", "--", "--rotate=+90"], False),
+        ("rotate", ["--rotate=+90:1"], False),
+        ("overlay", ["--overlay", clean, "--"], False),
+        ("underlay", ["--underlay", clean, "--repeat=1", "--"], False),
+        ("copy-attachments", ["--copy-attachments-from", att, "--"], False),
+        ("linearize", ["--linearize"], False),
+        ("qdf", ["--qdf"], False),
+        ("object-streams", ["--object-streams=generate"], False),
+        ("encrypt", ["--encrypt", "u", "o", "128", "--use-aes=y", "--", "--static-aes-iv"], False),
+        ("warning-exit-0", ["--warning-exit-0"], False),
+        ("no-warn", ["--no-warn"], False),
+        ("pages-warning-exit-0", ["--pages", ".", "1-z", "--", "--warning-exit-0"], False),
+        # warnings about a file that is not the main input
+        ("pages-damaged-other", ["--pages", ".", dmg, "1", "--"], True),
+        ("pages-damaged-only", ["--pages", dmg, "1", "--"], True),
+        ("overlay-damaged", ["--overlay", dmg, "--"], True),
+        ("underlay-damaged", ["--underlay", dmg, "--"], True),
+        ("copy-attachments-damaged", ["--copy-attachments-from", dmgatt, "--"], True),
+        ("copy-attachments-damaged-none", ["--copy-attachments-from", dmg, "--"], True),
+        ("copy-encryption-damaged", ["--copy-encryption=" + dmg], True),
+    ]
+
+
+def job_shape_cases(chk, wd, inputs, quick):
+    rng = chk.rng
+    shapes = job_shapes(inputs)
+    cases = []
+    combos = [(sh, iname) for sh in shapes for iname in ("small", "warn", "wlate")]
+    full = set(rng.sample(range(len(combos)), 20 if quick else len(combos)))
+
+    def mk(ix):
+        (sname, tail, other), iname = combos[ix]
+        inp = inputs[iname]
+        r4 = ref4(wd, "job-%s-%s" % (sname, iname), "replace", inp, tail)
+        return r4
+    refs = common.par_map(mk, range(len(combos)), workers=c10.WORKERS)
+    for ix, (((sname, tail, other), iname), r4) in enumerate(zip(combos, refs)):
+        inp = inputs[iname]
+        if not r4.ok:
+            chk.violation({"kind": "correspondence-broken", "correspondence": "corr:C11:fault-free-run", "input": iname, "job": sname, "why": r4.why}, no_input=True)
+            continue
+        if ix in full:
+            faults = ["none"] + path_faults(r4, ("full", "fail", "killb", "killa"))
+        else:
+            # the operations on the directory: both renames and the removal fail; the process dies right after each
+            ks = [i + 1 for i, k in enumerate(r4.op_kinds) if k in "ru"]
+            faults = ["none"] + ["fail@%d" % k for k in ks] + ["killa@%d" % k for k in ks]
+        cases.append({"r4": r4, "scen": "replace", "inp": inp, "tail": tuple(tail), "pre": None, "faults": faults,
+                      "wmain": inp["warn"], "wother": other, "wx0": "--warning-exit-0" in tail,
+                      "tag": "%s/%s" % (sname, iname), "describe": {"input": iname, "job": sname}})
+    return cases
+
 def run(chk):
     runner = os.path.join(common.EXTRACT, "model_runner")
     c10.build_shim()
@@ -34,6 +372,7 @@ def run(chk):
     if chk.tier == "thorough":
         c10.run_coqchk(chk, "C11")
     wd = common.workdir("C11")
+    t0 = time.time()
     B = os.stat(wd).st_blksize
     quick = chk.tier == "quick"
     inputs = c10.make_inputs(wd, chk.rng, chk.tier, 0 if quick else 8)
@@ -105,6 +444,18 @@ def run(chk):
                            "replay": {"scenario": g["scen"], "input": g["input"], "fault": fault}}, signature=sig)
             sigs = chk.cov.setdefault("specification_violations_by_signature", {})
             sigs[sig] = sigs.get(sig, 0) + 1
+    t1 = time.time()
+    # the same protocol started in directories that are not empty, and as part of other jobs
+    sc_cases = stale_directory_cases(chk, wd, inputs, quick)
+    nv_stale = run_cases4(chk, runner, wd, sc_cases, variant, B, "stale-directory")
+    t2 = time.time()
+    js_cases = job_shape_cases(chk, wd, inputs, quick)
+    nv_jobs = run_cases4(chk, runner, wd, js_cases, variant, B, "job-shapes")
+    t3 = time.time()
+    chk.cov["phase_seconds"] = {"replace-input-histories": round(t1 - t0, 1), "stale-directory": round(t2 - t1, 1), "job-shapes": round(t3 - t2, 1)}
+    chk.cov["parts"]["stale-directory"]["initial_directories"] = sorted(set(c["tag"] for c in sc_cases))
+    chk.cov["parts"]["job-shapes"]["jobs_x_inputs"] = sorted(set(c["tag"] for c in js_cases))
+    # (reported after the parts above, so that the replays with a concrete failing input come first)
     if diffs[variant]:
         g, j, cmpo = diffs[variant][0]
         vline = c10.model_lines(g["sc"], g["inp"], [g["faults"][j]], B, variant, verbose=True)
@@ -130,7 +481,13 @@ def run(chk):
                        "neighbours and a sample of the writes): the operation fails (full@k, fail@k), the process is killed before it (killb@k) and after it "
                        "(killa@k); plus a disk that stays full from k on and RLIMIT_FSIZE sweeps; after each run the directory is classified and compared with the "
                        "extracted model (also exit status, diagnostics, every stdio/rename/unlink call and result) and the extracted c11_safe / c11_final_ok are "
-                       "evaluated on it; non-trivial = a run with a fault or a kill, distinct by (input, fault)")
+                       "evaluated on it; non-trivial = a run with a fault or a kill, distinct by (input, fault). Part stale-directory: the same on inputs without / with "
+                       "warnings started in directories that already hold an older document, a byte-identical document, an empty or a non-empty directory under "
+                       "<in>.~qpdf-orig, <in>.~qpdf-orig#, <in>.~qpdf-temp# (each singly, fixed combinations, a sample of all 124 combinations; thorough: all), every "
+                       "non-write operation x {full, fail, killb, killa} and two sampled writes, also with --deterministic-id; part job-shapes: --replace-input inside "
+                       "25 jobs x 3 inputs (clean, warns when opened, warns while written), fault-free + both renames and the removal failing + a kill after each, the "
+                       "complete non-write sweep on a sample (thorough: all); both compared with the extracted c11d_run (Sys/ReplaceDirModel.v) and judged by the extracted "
+                       "c11d_safe / c11d_final_ok; non-trivial = distinct (initial directory or job, input, fault)")
     shutil.rmtree(wd, ignore_errors=True)
 
 
